@@ -16,6 +16,9 @@ PRV_VERSIONS = {0x0488ADE4, 0x049D7878, 0x04B2430C, 0x04358394, 0x044A4E28, 0x04
 
 def cases(rng, tier):
     n = 12 if tier == "quick" else 500
+    for ln in list(range(0, 9)) + [20]:
+        w = wspecs(rng, 1)[0]
+        yield "paranoia %s %d %d %d" % (w, rng.choice([0, 1]), 2, 2 + ln), "paranoia-rows-%d" % ln
     for w in wspecs(rng, n):
         acct = rng.choice([0, 1, H - 1, rng.randrange(H)])
         a, b = intervals(rng)
